@@ -235,6 +235,63 @@ def _native_delegation(ctx) -> None:
                    f"{detail}; the value must come from {native}.{name}({', '.join(params)}) - the native class defines it", m.loc(fn))
 
 
+def native_tabulate(ctx, rule: str = "NATIVE.tabulated", only: tuple[str, ...] | None = None) -> None:
+    """NATIVE.tabulated: the overrides that answer with the native class's own result re-wrapped in the pendulum type (DateTime.astimezone;
+    Date.today / fromtimestamp / fromordinal) are evaluated by the checker's interpreter: `super()` and the native classes are the standard
+    library's, applied to standard-library values; the class being constructed is the standard library's datetime / date.  The value
+    constructed must equal what the native method answers (same fields, same instant, same utcoffset - a naive result for an aware answer
+    is a different value)."""
+    import datetime as _dt
+    from ..rules import minieval
+    from ..rules.minieval import ClassStub, Obj, Stub
+    LOCAL = _dt.timezone(_dt.timedelta(hours=5, minutes=45), "LOCAL")          # stands for the local zone of the process
+    bases = [_dt.datetime(2021, 3, 7, 12, 30, 15, 250, tzinfo=_dt.timezone(_dt.timedelta(hours=2))), _dt.datetime(1999, 12, 31, 23, 59, 59, 999999, tzinfo=_dt.timezone.utc),
+             _dt.datetime(2020, 2, 29, 0, 0, 0, 0, tzinfo=_dt.timezone(_dt.timedelta(hours=-9, minutes=-30)))]
+    targets = [None, _dt.timezone.utc, _dt.timezone(_dt.timedelta(hours=-5)), _dt.timezone(_dt.timedelta(hours=13, minutes=45))]
+    dm, am = pmod("datetime"), pmod("date")
+    todo = []
+    if dm.has_func("DateTime.astimezone"):
+        todo.append(("DateTime.astimezone", dm, dm.func("DateTime.astimezone")))
+    for name in ("today", "fromtimestamp", "fromordinal"):
+        if am.has_func(f"Date.{name}"):
+            todo.append((f"Date.{name}", am, am.func(f"Date.{name}")))
+    for label, m, fn in todo:
+        if only is not None and label not in only:
+            continue
+        glob = {"$globals": {**minieval.module_consts(m), "datetime": Stub(datetime=_dt.datetime, date=_dt.date, timezone=_dt.timezone, timedelta=_dt.timedelta, tzinfo=_dt.tzinfo),
+                             "date": ClassStub(_new=_dt.date, _isa=lambda v: isinstance(v, _dt.date), today=lambda: _dt.date(2021, 3, 7),
+                                               fromtimestamp=_dt.date.fromtimestamp, fromordinal=_dt.date.fromordinal)}}
+        bad, n = [], 0
+        try:
+            if label == "DateTime.astimezone":
+                for b in bases:
+                    for t in targets:
+                        want = b.astimezone(LOCAL if t is None else t)
+                        me = Obj(_methods={}, _props=set(), _natives={}, _ctor=ClassStub(_new=_dt.datetime, _isa=lambda v: isinstance(v, _dt.datetime)),
+                                 _super_natives={"astimezone": lambda tz=None, b=b: b.astimezone(LOCAL if tz is None else tz)},
+                                 tzinfo=b.tzinfo, tz=b.tzinfo, timezone=b.tzinfo, **{k: getattr(b, k) for k in ("year", "month", "day", "hour", "minute", "second", "microsecond", "fold")})
+                        got = minieval.call(fn, [me] + ([] if t is None else [t]), {}, glob)
+                        n += 1
+                        same = isinstance(got, _dt.datetime) and got.tzinfo is not None and got == want and got.utcoffset() == want.utcoffset() and \
+                            got.replace(tzinfo=None) == want.replace(tzinfo=None) and got.fold == want.fold
+                        if not same:
+                            bad.append(f"{b.isoformat()}.astimezone({'' if t is None else t}) -> {got.isoformat() if isinstance(got, _dt.datetime) else got!r} (native: {want.isoformat()})")
+            else:
+                args = {"Date.today": [[]], "Date.fromtimestamp": [[0], [1615120000.5], [-86400 * 365.25 * 30]], "Date.fromordinal": [[1], [737000], [3652059]]}[label]
+                nat = {"Date.today": lambda: _dt.date(2021, 3, 7), "Date.fromtimestamp": _dt.date.fromtimestamp, "Date.fromordinal": _dt.date.fromordinal}[label]
+                for a in args:
+                    cls = ClassStub(_new=_dt.date, _isa=lambda v: isinstance(v, _dt.date), _super_natives={label.split(".")[1]: nat})
+                    got = minieval.call(fn, [cls] + a, {}, glob)
+                    want = nat(*a)
+                    n += 1
+                    if not (isinstance(got, _dt.date) and got == want):
+                        bad.append(f"{label}({', '.join(map(str, a))}) -> {got!r} (native: {want!r})")
+        except (core.Unsupported, KeyError, TypeError, AttributeError, IndexError, RecursionError, minieval.Raised) as e:
+            ctx.unverified(rule, label, f"outside the checker's interpreter: {type(e).__name__}: {str(e)[:160]}", m.loc(fn))
+            continue
+        ctx.ob(rule, label, not bad, f"{n} calls: " + (f"wrong: {bad[:3]}" if bad else "the value constructed is the native answer"), m.loc(fn))
+
+
 def _eq_hash_str(ctx) -> None:
     for rel in core.all_py_modules():
         if "/locales/" in rel:
@@ -351,6 +408,7 @@ def run(ctx) -> None:
     ctx.step(_replace, ctx)
     ctx.step(_recon, ctx)
     ctx.step(_native_delegation, ctx)
+    ctx.step(native_tabulate, ctx)
     from . import C02
     ctx.step(C02._funnel, ctx)        # replace()/set() like the native replace(): every field, tzinfo and fold reach the constructor
     ctx.step(_eq_hash_str, ctx)
